@@ -202,6 +202,11 @@ package utils
 //@   ensures {C06,C12} [an-accepted-chunk-header-carries-a-signature] ret3 == nil ==> ret1 != ""
 // the mark "no header has been read yet" (no CRLF in front of the first header) is taken down only by a header that was
 // parsed completely: one that has to wait for the next read is looked at again from its first byte
+// one measure for a header however it arrives: the first line of an accepted header (size and signature, from its first
+// byte to the line end) has at most maxHeaderSize bytes — ret2 is where the data start in this read, the part kept from
+// earlier reads and the CRLF of the previous chunk lie in front of the line
+//@   ensures {C12,C20} [the-first-line-of-an-accepted-header-is-within-the-limit] ret3 == nil && ret0 != 0 ==> \
+//@        ret2 + old(len(cr.stash)) - ite(old(cr.isFirstHeader), 0, 2) - 2 <= maxHeaderSize
 //@   ensures {C12} [the-first-header-mark-falls-only-with-a-complete-header] (ret3 != nil ==> cr.isFirstHeader == old(cr.isFirstHeader)) && (ret3 == nil && ret0 != 0 ==> !cr.isFirstHeader)
 //@ func (*ChunkReader) expectEnd
 //@   requires cr.r != nil
